@@ -170,12 +170,13 @@ def bytes_keys(ctx):
     """bytes dictionary keys (outside the key universe of the Lean model: implementation only): the path DeepDiff reports is read back by
     parse_path and extract, stringify_path inverts parse_path, DeepSearch reports the same string, the tree view's list form is the key sequence"""
     pool = [b'x', b'', b'ab c', b"it's", b'say "x"', b'0', b'root', b'a.b', b'a[0]', b'__p', b'\xff\x00', b'a"b\'c', b'C:\\tmp', b'\n', 'é'.encode(),
-            (1, 2), (), (0,), (1, (2, 3)), ('a', 'b'), (1.5, None), (True, 'x y')]            # tuples as keys (finding F64: rendered item by item, root[1][2])
+            (1, 2), (), (0,), (1, (2, 3)), ('a', 'b'), (1.5, None), (True, 'x y'),
+            1e-07, 3e-05, 1e+16, -1e+22, 2.5e-05, 1.5e+300, 2.0, -3.0, 100.0, 5e-324]        # floats whose repr is in exponent form, whole floats            # tuples as keys (finding F64: rendered item by item, root[1][2])
     others = ['a', "it's", 1, 1.5, None, True, Idx(0), Idx(2), '']
     n = 300 if ctx.thorough() else 60
     for _ in range(n):
         ks = [ctx.rng.choice(pool) if ctx.rng.random() < 0.6 else ctx.rng.choice(others) for _ in range(ctx.rng.randint(1, 3))]
-        if not any(isinstance(k, (bytes, tuple)) for k in ks):
+        if not any(isinstance(k, (bytes, tuple, float)) for k in ks):
             ks.insert(ctx.rng.randrange(len(ks) + 1), ctx.rng.choice(pool))
         plain = [int(k) if isinstance(k, Idx) else k for k in ks]
         ctx.evaluations += 1
